@@ -6,7 +6,7 @@ from props import _dhelp as H
 from common import bits, unbits, fb, close, canon_hash
 
 ID = "C04"
-SECTIONS = []
+SECTIONS = ["stats", "corr"]
 LEAN_MODULES = ["QExPy.Props.C04"]
 THEOREMS = ["QExPy.C04_key_unordered",
             "QExPy.C04_inv_init",
